@@ -35,6 +35,7 @@ package main
 import (
 	"context"
 	"fmt"
+	"net"
 	"os"
 	"path/filepath"
 	"regexp"
@@ -119,6 +120,7 @@ type c12inst struct {
 	owed    bool // the last HAProxyUpdate returned before it was past writeConfig (instance.rewriteOwed)
 	rot     int  // InstanceOptions.MaxOldConfigFiles (--max-old-config-files): haproxy.cfg and the shard files are rotated
 	fired   []string // statistics: the faults inside the rotated write that were armed at their own step
+	prev    map[int][2]int // name index -> (cfg, slots) of its last AcquireBackend + fill
 }
 
 func newC12inst(queue bool, n int, names []int) *c12inst { return newC12instRot(queue, n, names, 0) }
@@ -170,8 +172,23 @@ func (e *c12inst) close() { os.RemoveAll(e.dir) }
 
 // backend content: cfg = 4*conf + epv; conf is rendered as `balance cfg<conf>`, epv is the address
 // 10.0.0.<1+epv> of the single real endpoint; slots = number of empty endpoints
+//
+// A backend with an ODD conf has a source address (hatypes.Backend.SourceIPs = [c12sourceIP], what the
+// source-address-intf annotation gives): its rendering carries `source <ip>` on every server line, filled into
+// Endpoint.SourceIP by Backends.FillSourceIPs / FillAllSourceIPs inside HAProxyUpdate, not by the renderer.
+const c12sourceIP = "192.168.0.9"
+
+func c12hasSource(conf int) bool { return conf%2 == 1 }
+
+// c12noSource marks a backend read from a file whose server line does not say about the source address what its
+// conf demands: no backend content renders to that (decoded cfg + c12noSource)
+const c12noSource = 1000
+
 func c12fill(b *hatypes.Backend, cfg, slots int) {
 	b.BalanceAlgorithm = fmt.Sprintf("cfg%d", cfg/4)
+	if c12hasSource(cfg / 4) {
+		b.SourceIPs = []net.IP{net.ParseIP(c12sourceIP)}
+	}
 	b.Dynamic.DynUpdate = true
 	b.Dynamic.BlockSize = 1
 	b.AcquireEndpoint(fmt.Sprintf("10.0.0.%d", 1+cfg%4), 8080, "")
@@ -545,9 +562,13 @@ func c12parseBackends(idx map[string]int, data string) []c05ent {
 	var res []c05ent
 	var cur *c05ent
 	conf, epv := 0, 0
+	src, real := false, false
 	flush := func() {
 		if cur != nil {
 			cur.cfg = 4*conf + epv
+			if real && src != c12hasSource(conf) {
+				cur.cfg += c12noSource // the server line lacks (or has) the source address against its conf
+			}
 			res = append(res, *cur)
 			cur = nil
 		}
@@ -556,6 +577,7 @@ func c12parseBackends(idx map[string]int, data string) []c05ent {
 		if m := c05reBackend.FindStringSubmatch(line); m != nil {
 			flush()
 			conf, epv = 0, 0
+			src, real = false, false
 			if i, ok := idx[m[1]]; ok {
 				cur = &c05ent{name: i}
 			}
@@ -577,6 +599,8 @@ func c12parseBackends(idx map[string]int, data string) []c05ent {
 		} else if m := c12reSrv.FindStringSubmatch(t); m != nil {
 			v, _ := strconv.Atoi(m[1])
 			epv = v - 1
+			real = true
+			src = strings.Contains(t+" ", " source "+c12sourceIP+" ")
 		} else if strings.HasPrefix(t, "server ") {
 			cur.slots++
 		}
@@ -1000,6 +1024,21 @@ func c12instRun(queue bool, n int, names, shardOf []int, ops []string) c12res {
 				back := b.AcquireBackend(ns, name, port)
 				if isNew {
 					c12fill(back, cf, slots)
+					// A backend with a source address that comes back with the content it had (full resync, or
+					// removed and added again in one batch): the converter leaves Endpoint.SourceIP empty, the old
+					// object has it filled, and Backends.Shrink (reflect.DeepEqual) would take the backend for
+					// changed - one more file written than the model says, never one less.  The harness fills the
+					// field so that Shrink recognises the unchanged backend, as it does for one without source address.
+					if e.prev == nil {
+						e.prev = map[int][2]int{}
+					}
+					// (backendsMatch ignores the empty endpoints: the number of slots does not count)
+					if pv, ok := e.prev[x]; ok && pv[0] == cf && c12hasSource(cf/4) {
+						for _, ep := range back.Endpoints {
+							ep.SourceIP = c12sourceIP
+						}
+					}
+					e.prev[x] = [2]int{cf, slots}
 				}
 			case op[0] == 'r':
 				var ids []string
@@ -1521,6 +1560,19 @@ func c12instCorpus(j *c12jobs) {
 		"0 0 0.0 O1,a0.4.0,H0.1,u:mc,u",
 		"1 3 2.0 O1,a0.4.0,a1.4.0,u,q,r0,a0.8.0,u:mc,u,q",
 		"0 3 2.0 O3,a0.4.0,a1.4.0,u,r0,a0.8.0,r1,a1.8.0,u:sh0,u",
+		// --- source address (Backend.SourceIPs, odd conf): a backend WITH one is added, the update fails at the
+		// frontend maps, i.e. before FillSourceIPs ran and with the changed set committed: the owed rewrite must fill
+		// the source address of every backend (repo commit b7287f0; before it the retry wrote the server lines
+		// without `source <ip>`); same with the failure at the tcp maps / crt-list, with shards, with a queue, with
+		// the next event as retry, and for a backend whose address changed
+		"0 0 0.0 a0.4.0,H0.1,u,a1.5.0,R0,H0.2,u:fm,u",
+		"0 0 0.0 a0.8.0,T1,u,a1.4.0,T2,u:tm,u",
+		"0 0 0.0 a0.8.0,T1,u,a1.4.0,T2,u:cl,u",
+		"0 3 2.0 a0.8.0,H0.1,u,a1.4.0,R0,H0.2,u:fm,u",
+		"1 0 0.0 a0.8.0,H0.1,u,q,a1.4.0,R0,H0.2,u:fm,u,q",
+		"0 0 0.0 a0.8.0,H0.1,u,a1.4.0,R0,H0.2,u:fm,H1.1,u,u",
+		"0 0 0.0 a0.4.0,H0.1,u,r0,a0.5.0,R0,H0.2,u:fm,u",
+		"0 0 0.0 O1,a0.8.0,H0.1,u,a1.4.0,R0,H0.2,u:fm,u",
 		// --- more
 		"0 0 0.0 a0.4.0,H0.1,u:mc,u",
 		"0 0 0.0 a0.4.0,H0.1,T1,u,T2,u:tm,u,T3,u:cl,u,T4,u:mc,u",
